@@ -48,6 +48,14 @@ def outcomes(repo: Repo, cname: str) -> List[Outcome]:
                 raise AnalysisError(f"anchor vanished: {cname}.process")
             fn = r[1]
         ev = Evaluator(repo, MOD, cname, effect_methods=API)
+        # a stored conditional expression that is tested afterwards (`label = "a" if c else None; if label is None: raise`)
+        # forks like the if statement it abbreviates - only where such a test exists, so that plain value selections
+        # (`value if value is not None else "OFF"`) stay single terms
+        stored = {t.id for n in ast.walk(fn) if isinstance(n, ast.Assign) and isinstance(n.value, ast.IfExp)
+                  for t in n.targets if isinstance(t, ast.Name)}
+        tested = {x.id for n in ast.walk(fn) if isinstance(n, (ast.If, ast.While, ast.Assert)) for x in ast.walk(n.test)
+                  if isinstance(x, ast.Name)}
+        ev.fork_ifexp = bool(stored & tested)
         ps = [a.arg for a in fn.args.args]
         _cache[key] = ev.run_function(fn, {"self": SELF, **({ps[1]: WRITER} if len(ps) > 1 else {})})
     return _cache[key]
@@ -698,6 +706,27 @@ def _index_hazards(fn: ast.FunctionDef, parents) -> Tuple[int, List[Tuple[str, s
         if isinstance(node, ast.Call) and call_name(node) in ("re.search", "re.match", "re.fullmatch", "re.sub", "re.compile", "re.findall",
                                                               "re.split", "re.finditer") and node.args:
             pat = node.args[0]
+            if isinstance(pat, ast.Name):
+                # a local bound once to the pattern (a configured pattern read into a local first)
+                defs_ = [x.value for x in walk_no_nested(fn) if isinstance(x, ast.Assign) and len(x.targets) == 1
+                         and isinstance(x.targets[0], ast.Name) and x.targets[0].id == pat.id]
+                if len(defs_) == 1:
+                    pat = defs_[0]
+                elif not defs_ and pat.id in [a.arg for a in fn.args.args + fn.args.kwonlyargs]:
+                    # a parameter of a helper: what the callers of the same module pass there
+                    root = fn
+                    while parents.get(root) is not None:
+                        root = parents[root]
+                    pos_ = [a.arg for a in fn.args.args].index(pat.id) if pat.id in [a.arg for a in fn.args.args] else None
+                    is_meth = bool(fn.args.args) and fn.args.args[0].arg in ("self", "cls")
+                    passed = []
+                    for c_ in ast.walk(root):
+                        if isinstance(c_, ast.Call) and call_name(c_).split(".")[-1] == fn.name and c_ is not node:
+                            kw_ = next((k.value for k in c_.keywords if k.arg == pat.id), None)
+                            ix = None if pos_ is None else (pos_ - 1 if is_meth else pos_)
+                            passed.append(kw_ if kw_ is not None else (c_.args[ix] if ix is not None and 0 <= ix < len(c_.args) else None))
+                    if passed and all(p_ is not None and "settings" in norm(p_) for p_ in passed):
+                        pat = passed[0]
             raw_parts = []
             if isinstance(pat, ast.JoinedStr):
                 raw_parts = [v.value for v in pat.values if isinstance(v, ast.FormattedValue)]
@@ -706,8 +735,17 @@ def _index_hazards(fn: ast.FunctionDef, parents) -> Tuple[int, List[Tuple[str, s
                     if not (isinstance(pat, ast.Call) and call_name(pat) == "re.escape") else []
             unescaped = [p_ for p_ in raw_parts if not (isinstance(p_, ast.Call) and call_name(p_) == "re.escape")]
             if unescaped:
-                out.append((norm(node)[:80], f"`{norm(unescaped[0])[:40]}` is spliced into a regular expression without re.escape: a name that "
+                out.append((norm(node)[:80] + ("  [pattern: " + norm(pat)[:60] + "]" if pat is not node.args[0] else ""), f"`{norm(unescaped[0])[:40]}` is spliced into a regular expression without re.escape: a name that "
                             f"is a legal CMake argument but not a valid pattern (`*values`, `n{{2,1}}`) raises re.error while rendering"))
+        if isinstance(node, ast.Subscript) and isinstance(node.ctx, ast.Load) and isinstance(node.value, ast.Call) \
+                and isinstance(node.value.func, ast.Attribute) and not isinstance(node.slice, ast.Slice) \
+                and (node.value.func.attr == "splitlines" or (node.value.func.attr == "split" and not node.value.args and not node.value.keywords)):
+            # "".splitlines() and "  ".split() are empty lists: a constant index into them is not total
+            guarded = any(norm(node.value.func.value) in norm(g.test) or norm(node.value) in norm(g.test) for g in guards_of(fn, node, parents))
+            if not guarded:
+                n += 1
+                out.append((norm(node)[:80], f"`{norm(node)[:60]}` indexes the result of {node.value.func.attr}() without knowing it is "
+                            f"non-empty: for an empty or all-whitespace text the list is empty and rendering raises IndexError"))
         if isinstance(node, ast.Subscript) and isinstance(node.ctx, ast.Load) and isinstance(node.slice, ast.Name) \
                 and isinstance(node.value, ast.Attribute) and isinstance(node.value.value, ast.Name) and node.value.value.id == "self":
             n += 1
@@ -750,6 +788,18 @@ def _index_hazards(fn: ast.FunctionDef, parents) -> Tuple[int, List[Tuple[str, s
                         if isinstance(hi, ast.Call) and call_name(hi) == "min" and any(norm(a) == f"len({lst})" for a in hi.args):
                             bounded = True
                 q = parents.get(q)
+            # try: ... lst[idx] ... except IndexError: break / continue / return  - the failing access ends the loop
+            q = parents.get(node)
+            child = node
+            while q is not None and q is not fn:
+                if isinstance(q, ast.Try) and any(child is s_ or any(child is x for x in ast.walk(s_)) for s_ in q.body):
+                    for h in q.handlers:
+                        names = [norm(h.type)] if h.type is not None and not isinstance(h.type, ast.Tuple) else \
+                            ([norm(e) for e in h.type.elts] if h.type is not None else ["BaseException"])
+                        if any(nm in ("IndexError", "LookupError", "Exception", "BaseException") for nm in names) and h.body \
+                                and isinstance(h.body[-1], (ast.Break, ast.Continue, ast.Return)):
+                            bounded = True
+                child, q = q, parents.get(q)
             for g in guards_of(fn, node, parents):
                 t = norm(g.test)
                 if (t in (f"{idx} >= len({lst})", f"len({lst}) <= {idx}") and not g.polarity) or \
@@ -875,3 +925,28 @@ def rule_no_line_breaks_introduced(rep: Report, repo: Repo, rule: str) -> None:
                               f"{bad} introduces line breaks into a {e.method} value: the continuation lines are not indented and leave "
                               f"the entry's directive", witness="set(SOURCES <nine long paths>) with a doccomment")
     rep.floor(rule, 20, "field / directive / option values")
+
+
+def rule_listener_regex_splice(rep: Report, repo: Repo, rule: str) -> None:
+    """The regex-splice hazard of the render-totality rule, applied to the listener: a parameter name or argument text that is a
+    legal CMake argument (`values[`, `*rest`, `x{2,1}`) formatted into a pattern raises re.error and the valid file is rejected."""
+    from .. import roles
+    rep.rule(rule, "no listener method formats a non-constant value into a regular expression without re.escape (settings patterns "
+                   "are patterns by contract and are passed as they are)")
+    cls = roles.aggregator_class(repo)
+    ci = repo.cls(cls)
+    m = repo.module(ci.module)
+    n = 0
+    for k in [k for k in repo.mro(cls) if k.module == ci.module]:
+        for mname, fn in k.methods.items():
+            cnt, hazards = _index_hazards(fn, m.parents)
+            for construct, msg in hazards:
+                if "regular expression" not in msg:
+                    continue
+                # patterns taken from the settings are the user's patterns
+                if "settings" in construct and "f'" not in construct and 'f"' not in construct and "format(" not in construct:
+                    continue
+                n += 1
+                rep.bad(rule, f"{ci.module}:{k.name}.{mname}", construct, msg.replace("while rendering", "while the file is read"),
+                        witness="function(f values[)  /  macro(m *rest) with a doccomment")
+    rep.ok(rule, f"{ci.module}:{cls}", f"{n} unescaped splice(s) in listener patterns")
